@@ -1823,7 +1823,12 @@ class FloatData(Data[float]):
 
     def print_parameter(self, printer: Printer) -> None:
         with printer.in_angle_brackets():
-            printer.print_string(f"{self.data}")
+            text = f"{self.data}"
+            if math.isfinite(self.data) and "." not in text:
+                # `1e+20` would be lexed as the integer `1` followed by `e`
+                mantissa, _, exponent = text.partition("e")
+                text = f"{mantissa}.0e{exponent}"
+            printer.print_string(text)
 
     def _bits(self) -> bytes:
         # The IEEE-754 binary64 bit pattern of the value.
